@@ -233,7 +233,15 @@ def scenario(run, rng, pv, idx):
             force = rng.random() < 0.5
             sent_out.append((p, force))
             packets_alive.append(p)
-            conn.write_packet(p, force=force)
+            try:
+                conn.write_packet(p, force=force)
+            except BaseException as e:
+                run.violation('listeners/write_packet-raised:%s'
+                              % type(e).__name__, 'write_packet() raised to '
+                              'its caller (an outgoing listener\'s ignore must'
+                              ' only suppress that packet)',
+                              dict(w, force=force, error=repr(e)))
+                return None
         # wait until everything queued has been processed
         pc.wait_for(lambda: not conn._outgoing_packet_queue, 5.0)
         n_in_total = n_plugin + (1 if use_compression else 0) + 1 + \
